@@ -566,7 +566,7 @@ func NewWorld(meta Meta, seed int64) (*World, error) {
 				return "", nil, false
 			}
 
-			return ra.Username, turn.GenerateAuthKey(ra.Username, ra.Realm, "pw-"+ra.Username), true
+			return userIDOf(ra.Username), turn.GenerateAuthKey(ra.Username, ra.Realm, "pw-"+ra.Username), true
 		},
 		PacketConnConfigs: []turn.PacketConnConfig{
 			{PacketConn: w.listen4, RelayAddressGenerator: w.gen, PermissionHandler: permHandler},
@@ -639,6 +639,28 @@ func NewWorld(meta Meta, seed int64) (*World, error) {
 	}
 
 	return w, nil
+}
+
+// userIDOf: what the operator's handler calls the user.  Users "anon..." are identified by the empty string
+// (a shared-credential deployment; also what the library's REST handler returns for "<timestamp>:").
+func userIDOf(user string) string {
+	if strings.HasPrefix(user, "anon") {
+		return ""
+	}
+
+	return user
+}
+
+func (w *World) userOfID(id string) string {
+	if id == "" {
+		for _, u := range w.Meta.Users {
+			if strings.HasPrefix(u, "anon") {
+				return u
+			}
+		}
+	}
+
+	return id
 }
 
 func (w *World) isStream(c string) bool { return strings.HasPrefix(c, "s") }
@@ -1566,7 +1588,7 @@ func (w *World) Project() Proj {
 				continue
 			}
 			cs.Live = true
-			cs.User = al.VerifUserID()
+			cs.User = w.userOfID(al.VerifUserID())
 			cs.Fam = 4
 			if al.AddressFamily() == proto.RequestedFamilyIPv6 {
 				cs.Fam = 6
@@ -1654,6 +1676,7 @@ func (w *World) badCred(c, m, k string) ([]byte, error) {
 	pw := "pw-" + user
 	nonce := w.nonce
 	useUser, useRealm, useNonce, useMI := true, true, true, true
+	emptyKey := false
 	miUser := user
 	presentedRealm := realm
 	miRealm := realm
@@ -1677,6 +1700,8 @@ func (w *World) badCred(c, m, k string) ([]byte, error) {
 		presentedRealm = "other.example"
 	case "ghostUser":
 		user, miUser, pw = "ghost", "ghost", "pw-ghost"
+	case "ghostEmptyKey": // unknown to the operator's handler, integrity computed with the empty key
+		user, emptyKey = "ghost", true
 	case "wrongPw":
 		pw = "not-the-password"
 	case "otherUserKey":
@@ -1718,7 +1743,10 @@ func (w *World) badCred(c, m, k string) ([]byte, error) {
 	if useNonce {
 		s = append(s, stun.NewNonce(nonce))
 	}
-	if useMI {
+	switch {
+	case useMI && emptyKey:
+		s = append(s, stun.MessageIntegrity([]byte{}))
+	case useMI:
 		s = append(s, stun.NewLongTermIntegrity(miUser, miRealm, pw))
 	}
 	msg, err := stun.Build(s...)
